@@ -1,4 +1,84 @@
-import HydroVerif.Model.C20
+/-
+C20 — property theorems. Model: `HydroVerif/Model/C20.lean`; helper lemmas: `Lemmas/C20*.lean`.
+All statements are over an arbitrary ordered field `α` (so over ℚ and ℝ), for every size.
+-/
+import HydroVerif.Lemmas.C20
+
+set_option linter.unusedSectionVars false
+set_option linter.unusedVariables false
+
 namespace HydroVerif.C20
-theorem placeholder_c20 : paretoFront (1 : Rat) [] = [] := rfl
+
+section field
+variable {α : Type} [Field α] [LinearOrder α] [IsStrictOrderedRing α]
+
+/-! ### ppos -/
+
+/-- every constant of `[0, 0.5]` is accepted and `n` positions are returned -/
+theorem ppos_accepts (n : Nat) (cst : α) (h0 : 0 ≤ cst) (h1 : cst ≤ 1 / 2) :
+    ∃ l, ppos n cst = .ok l ∧ l.length = n := by
+  exact ⟨_, ppos_eq n cst h0 h1, by simp⟩
+
+/-- constants outside `[0, 0.5]` are rejected -/
+theorem ppos_rejects (n : Nat) (cst : α) (h : cst < 0 ∨ 1 / 2 < cst) : ppos n cst = .error .cstRange := by
+  unfold ppos
+  rw [if_pos h]
+
+/-- plotting positions are strictly increasing -/
+theorem ppos_strictly_increasing (n : Nat) (cst : α) (h0 : 0 ≤ cst) (h1 : cst ≤ 1 / 2) (l : List α)
+    (h : ppos n cst = .ok l) : l.Pairwise (· < ·) := by
+  rw [ppos_eq n cst h0 h1] at h
+  injection h with h
+  subst h
+  rw [List.pairwise_map]
+  rcases Nat.eq_zero_or_pos n with rfl | hn
+  · simp
+  have hden := ppos_den_pos n hn cst h1
+  refine List.Pairwise.imp ?_ List.pairwise_lt_range
+  intro a b hab
+  apply div_lt_div_of_pos_right _ hden
+  have : ((a + 1 : Nat) : α) < ((b + 1 : Nat) : α) := by exact_mod_cast Nat.succ_lt_succ hab
+  linarith
+
+/-- plotting positions lie strictly between 0 and 1 -/
+theorem ppos_in_unit_interval (n : Nat) (cst : α) (h0 : 0 ≤ cst) (h1 : cst ≤ 1 / 2) (l : List α)
+    (h : ppos n cst = .ok l) : ∀ p ∈ l, 0 < p ∧ p < 1 := by
+  rw [ppos_eq n cst h0 h1] at h
+  injection h with h
+  subst h
+  intro p hp
+  simp only [List.mem_map, List.mem_range] at hp
+  obtain ⟨i, hi, rfl⟩ := hp
+  have hn : ((i + 1 : Nat) : α) ≤ (n : α) := by exact_mod_cast hi
+  have hi0 : (0 : α) ≤ (i : α) := Nat.cast_nonneg i
+  have hden := ppos_den_pos n (by omega) cst h1
+  push_cast at hn hden ⊢
+  constructor
+  · apply div_pos _ hden
+    linarith
+  · rw [div_lt_one hden]
+    linarith
+
+/-- plotting positions are symmetric about 0.5: `p_i + p_{n-1-i} = 1` (0-based) -/
+theorem ppos_symmetric (n : Nat) (cst : α) (h0 : 0 ≤ cst) (h1 : cst ≤ 1 / 2) (l : List α)
+    (h : ppos n cst = .ok l) (i : Nat) (hi : i < n) :
+    ∃ a b, l[i]? = some a ∧ l[n - 1 - i]? = some b ∧ a + b = 1 := by
+  rw [ppos_eq n cst h0 h1] at h
+  injection h with h
+  subst h
+  have hj : n - 1 - i < n := by omega
+  refine ⟨_, _, ?_, ?_, ?_⟩
+  · rw [List.getElem?_map, List.getElem?_range hi]; rfl
+  · rw [List.getElem?_map, List.getElem?_range hj]; rfl
+  · have hden := ppos_den_pos n (by omega) cst h1
+    have hsum : ((i + 1 : Nat) : α) + ((n - 1 - i + 1 : Nat) : α) = ((n + 1 : Nat) : α) := by
+      have : i + 1 + (n - 1 - i + 1) = n + 1 := by omega
+      exact_mod_cast this
+    rw [← add_div, div_eq_one_iff_eq hden.ne']
+    linarith
+
+example : ppos 3 (3 / 10 : Rat) = .ok [7 / 34, 1 / 2, 27 / 34] := by decide +kernel
+
+end field
+
 end HydroVerif.C20
